@@ -33,7 +33,8 @@ Record dump := {
 
 Record sync_obs := { o_out : sync_out; o_dump : dump }.
 
-Inductive step := Ev (e : event) | Sync (o : sync_obs).
+(* SyncF: a sync whose ReleaseIPs call failed after releasing only [done] *)
+Inductive step := Ev (e : event) | Sync (o : sync_obs) | SyncF (o : sync_obs) (done : list relopt).
 
 Record case := { k_grace : option N; k_fixaff : bool; k_fixgc : bool; k_steps : list step }.
 Definition cfg_of (k : case) : cfg :=
@@ -50,6 +51,8 @@ Definition mkR (h b o seq : N) : relopt := {| r_id := (h, b, o); r_seq := seq |}
 Definition mkD := Build_dump.
 Definition mkS (rel : list relopt) (rba rha : list N) (d : dump) : step :=
   Sync {| o_out := {| so_rel := rel; so_rba := rba; so_rha := rha |}; o_dump := d |}.
+Definition mkSF (rel : list relopt) (d : dump) (done : list relopt) : step :=
+  SyncF {| o_out := {| so_rel := rel; so_rba := []; so_rha := [] |}; o_dump := d |} done.
 Definition mkK := Build_case.
 
 (* ---------- equality up to order ---------- *)
@@ -113,6 +116,10 @@ Definition model_step (f : cfg) (st : world * ctrl * bool) (s : step) : world * 
   | Sync o =>
       let '(c', out) := sync_ipam f w (nodes_to_check c)
                                   (guided_gorder w (so_rel (o_out o))) (guided_border (so_rba (o_out o))) c in
+      (w, c', ok && out_eqb out (o_out o) && dump_eqb (dump_of c') (o_dump o))
+  | SyncF o done =>
+      let '(c', out) := sync_ipam_failed f w (nodes_to_check c) (guided_gorder w (so_rel (o_out o)))
+                                         (fun x => existsb (relopt_eqb x) done) c in
       (w, c', ok && out_eqb out (o_out o) && dump_eqb (dump_of c') (o_dump o))
   end.
 
@@ -283,21 +290,8 @@ Definition forget_seen (b : N) (s : sstate) (seen : list (N * block)) : sstate :
   {| s_w := s_w s; s_cnodes := s_cnodes s; s_seen := seen;
      s_gcd := filter (fun i => negb (N.eqb (id_block i) b)) (s_gcd s); s_unknown := s_unknown s; s_dumps := s_dumps s |}.
 
-Definition spec_step (grace : option N) (st : sstate * bool) (x : step) : sstate * bool :=
-  let '(s, ok) := st in
-  match x with
-  | Ev e =>
-      let s1 := set_sw s (fst (apply_event false e (s_w s, ctrl0))) in
-      (match e with
-       | ECNodeSync n (Some k) => {| s_w := s_w s1; s_cnodes := mput n k (s_cnodes s1); s_seen := s_seen s1; s_gcd := s_gcd s1;
-                                 s_unknown := s_unknown s1; s_dumps := s_dumps s1 |}
-       | ECNodeSync n None => {| s_w := s_w s1; s_cnodes := mdel n (s_cnodes s1); s_seen := s_seen s1; s_gcd := s_gcd s1;
-                                  s_unknown := s_unknown s1; s_dumps := s_dumps s1 |}
-       | EBlock b (Some blk) => forget_seen b s1 (mput b blk (s_seen s1))
-       | EBlock b None => forget_seen b s1 (mdel b (s_seen s1))
-       | _ => s1
-       end, ok)
-  | Sync o =>
+(* one sync: the calls are judged as made; only the options in [done] were really released *)
+Definition spec_sync (grace : option N) (s : sstate) (ok : bool) (o : sync_obs) (done : list relopt) : sstate * bool :=
       let out := o_out o in
       (* nodes mentioned by blocks seen that are unknown at this sync *)
       let nodes := dedup (map a_node (image (s_seen s))) in
@@ -312,10 +306,27 @@ Definition spec_step (grace : option N) (st : sstate * bool) (x : step) : sstate
                                       | None => true end) (so_rba out) in
       (* effects of the calls: released allocations and released blocks are gone *)
       let seen' := fold_left (fun sn b => mdel b sn) (so_rba out) (s_seen s0) in
-      let gcd' := filter (fun i => negb (nmem (id_block i) (so_rba out))) (map r_id (so_rel out) ++ s_gcd s0) in
+      let gcd' := filter (fun i => negb (nmem (id_block i) (so_rba out))) (map r_id done ++ s_gcd s0) in
       let s1 := {| s_w := s_w s0; s_cnodes := s_cnodes s0; s_seen := seen'; s_gcd := gcd';
                    s_unknown := s_unknown s0; s_dumps := (w_now (s_w s0), o_dump o) :: s_dumps s0 |} in
-      (s1, ok && ok1 && ok_books s1 (o_dump o))
+      (s1, ok && ok1 && ok_books s1 (o_dump o)).
+
+Definition spec_step (grace : option N) (st : sstate * bool) (x : step) : sstate * bool :=
+  let '(s, ok) := st in
+  match x with
+  | Ev e =>
+      let s1 := set_sw s (fst (apply_event false e (s_w s, ctrl0))) in
+      (match e with
+       | ECNodeSync n (Some k) => {| s_w := s_w s1; s_cnodes := mput n k (s_cnodes s1); s_seen := s_seen s1; s_gcd := s_gcd s1;
+                                 s_unknown := s_unknown s1; s_dumps := s_dumps s1 |}
+       | ECNodeSync n None => {| s_w := s_w s1; s_cnodes := mdel n (s_cnodes s1); s_seen := s_seen s1; s_gcd := s_gcd s1;
+                                  s_unknown := s_unknown s1; s_dumps := s_dumps s1 |}
+       | EBlock b (Some blk) => forget_seen b s1 (mput b blk (s_seen s1))
+       | EBlock b None => forget_seen b s1 (mdel b (s_seen s1))
+       | _ => s1
+       end, ok)
+  | Sync o => spec_sync grace s ok o (so_rel (o_out o))
+  | SyncF o done => spec_sync grace s ok o done
   end.
 
 Definition ok_case (k : case) : bool :=
@@ -324,12 +335,7 @@ Definition ok_case (k : case) : bool :=
 Definition check_case (k : case) : bool * bool := (model_agrees k, ok_case k).
 
 (* ---------- diagnosis: which part of the oracle rejects, per sync (used for replays and classification only) ---------- *)
-Definition diag_step (grace : option N) (st : sstate * list (list bool)) (x : step) : sstate * list (list bool) :=
-  let '(s, acc) := st in
-  let s' := fst (spec_step grace (s, true) x) in
-  match x with
-  | Ev _ => (s', acc)
-  | Sync o =>
+Definition diag_sync (grace : option N) (s s' : sstate) (acc : list (list bool)) (o : sync_obs) : sstate * list (list bool) :=
       let out := o_out o in
       let nodes := dedup (map a_node (image (s_seen s))) in
       let s0 := {| s_w := s_w s; s_cnodes := s_cnodes s; s_seen := s_seen s; s_gcd := s_gcd s;
@@ -350,7 +356,15 @@ Definition diag_step (grace : option N) (st : sstate * list (list bool)) (x : st
                     subset id_eqb (d_conf d) (map a_id tr);
                     set_eqb N.eqb (d_blocks d) (map fst (s_seen s'));
                     set_eqb nn_eqb (d_bbn d)
-                      (flat_map (fun bb => match b_aff (snd bb) with AffHost n => [(n, fst bb)] | _ => [] end) (s_seen s'))]])
+                      (flat_map (fun bb => match b_aff (snd bb) with AffHost n => [(n, fst bb)] | _ => [] end) (s_seen s'))]]).
+
+Definition diag_step (grace : option N) (st : sstate * list (list bool)) (x : step) : sstate * list (list bool) :=
+  let '(s, acc) := st in
+  let s' := fst (spec_step grace (s, true) x) in
+  match x with
+  | Ev _ => (s', acc)
+  | Sync o => diag_sync grace s s' acc o
+  | SyncF o _ => diag_sync grace s s' acc o
   end.
 Definition diag_case (k : case) : list (list bool) :=
   snd (fold_left (diag_step (k_grace k)) (k_steps k) (sstate0, [])).
